@@ -57,6 +57,12 @@ func c05Run(f []string) string {
 	if f[0] == "sigagg" {
 		return c05SigAgg(f)
 	}
+	if f[0] == "logger" {
+		return c05Logger(f)
+	}
+	if f[0] == "logerr" {
+		return c05LogErr(f)
+	}
 	if f[0] != "agg" {
 		return "bad-op"
 	}
@@ -192,6 +198,7 @@ func c05Gen(r *Rand, tier string) []string {
 	out = append(out, c05LocksetGen(r, tier)...)
 	out = append(out, c05StageCases(r, tier, []string{"d"})...)
 	out = append(out, c05SigGen(r, tier)...)
+	out = append(out, c05LoggerGen(r, tier)...)
 	return append(out, aggTraceGen(r, tier)...)
 }
 
@@ -214,6 +221,11 @@ func c05Stats(cases []string) map[string]int {
 			continue
 		}
 		if c05LocksetStats(st, c) {
+			continue
+		}
+		if f[0] == "logger" || f[0] == "logerr" {
+			st[f[0]+".cases"]++
+			st["logger.lines.total"] = c05LogLines
 			continue
 		}
 		if f[0] == "sigagg" {
